@@ -25,6 +25,9 @@ PURE_METHODS = {
 }
 
 
+CMP_METHODS = {"gt": "Gt", "lt": "Lt", "ge": "Ge", "le": "Le", "eq": "Eq", "ne": "Ne"}
+
+
 def short(name):
     """last path segment of a def_path_str, without generic arguments"""
     s = name
@@ -190,6 +193,8 @@ class Sym:
         if call.callee.get("id") is None:
             return ("callat", call.bb, "<indirect>", args)
         sh = call.method or short(name)
+        if sh in CMP_METHODS and len(args) == 2:
+            return ("bin", CMP_METHODS[sh], args[0], args[1])
         if sh in PURE_METHODS:
             return ("call", sh, args, call.res, name)
         return ("callat", call.bb, sh, args, call.res, name)
